@@ -24,6 +24,11 @@ func (it *Iterator) SeekToFirst() {
 	it.mu.Lock()
 	defer it.mu.Unlock()
 
+	it.seekToFirst()
+}
+
+// seekToFirst implements SeekToFirst; the caller must hold it.mu
+func (it *Iterator) seekToFirst() {
 	// Reset error state
 	it.err = nil
 
@@ -106,14 +111,11 @@ func (it *Iterator) Seek(target []byte) bool {
 
 	// Find the block that might contain the key
 	// The index contains the first key of each block
-	if !it.indexIterator.Seek(target) {
-		// If seeking in the index fails, try the last block
-		it.indexIterator.SeekToLast()
-		if !it.indexIterator.Valid() {
-			// No blocks in the SSTable
-			it.resetBlockIterator()
-			return false
-		}
+	seekIndexToBlockForKey(it.indexIterator, target)
+	if !it.indexIterator.Valid() {
+		// No blocks in the SSTable
+		it.resetBlockIterator()
+		return false
 	}
 
 	// Load the data block at the current index position
@@ -138,8 +140,9 @@ func (it *Iterator) Next() bool {
 	defer it.mu.Unlock()
 
 	if !it.initialized {
-		it.SeekToFirst()
-		return it.Valid()
+		// it.mu is already held: SeekToFirst and Valid would deadlock here
+		it.seekToFirst()
+		return it.dataBlockIter != nil && it.dataBlockIter.Valid()
 	}
 
 	if it.dataBlockIter == nil {
